@@ -129,8 +129,10 @@ def parseUnsigned (s1 : List Nat) : Option (Nat × Int) :=
 
 def parseDec (s : List Nat) : Option (Bool × Nat × Int) :=
   match s with
-  | 14 :: r => (parseUnsigned r).map fun v => (true, v.1, v.2)
-  | _ => (parseUnsigned s).map fun v => (false, v.1, v.2)
+  | c :: r =>
+    if c = 14 then (parseUnsigned r).map fun v => (true, v.1, v.2)
+    else (parseUnsigned s).map fun v => (false, v.1, v.2)
+  | [] => (parseUnsigned s).map fun v => (false, v.1, v.2)
 
 def numDigits (x : Nat) : Nat := (digitsOf x).length
 
@@ -150,21 +152,27 @@ def decGe (m : Nat) (e : Int) (t : Nat) : Bool :=
 def decGt (m : Nat) (e : Int) (t : Nat) : Bool :=
   if e ≥ 0 then m * 10 ^ e.toNat > t else m > t * 10 ^ (-e).toNat
 
-/-- value delivered by `decodeFloat` for the decimal string `s`: `ParseFloat` (syntax, range
-error on overflow), then the clamps `|x| > 1e300 → ±1e300`, `|x| < 1e-300 → 0`. -/
+/-- what `decodeFloat` makes of the exact decimal `± m·10^e` delivered by `ParseFloat`: a range
+error if it rounds to ±Inf, then the clamps `|x| > 1e300 → ±1e300`, `|x| < 1e-300 → 0`; the
+result is normalised (no trailing zeros in the mantissa). -/
+def clampValue (v : Bool × Nat × Int) : Outcome (Bool × Nat × Int) :=
+  let (neg, m, e) := v
+  if m = 0 then .ok (false, 0, 0)
+  else
+    let mag : Int := (numDigits m : Int) + e      -- 10^(mag-1) ≤ value < 10^mag
+    if mag > 320 then .err "other"
+    else if mag < -320 then .ok (false, 0, 0)
+    else if decGe m e overflowBound then .err "other"
+    else if decGt m e (10 ^ 300) then .ok (neg, 1, 300)
+    else if !(decGe m (e + 300) 1) then .ok (false, 0, 0)   -- m·10^e < 10^-300
+    else .ok (normReal neg m e)
+
+/-- value delivered by `decodeFloat` for the decimal string `s`: `ParseFloat` (syntax error or
+exact decimal), then `clampValue`. -/
 def floatValue (s : List Nat) : Outcome (Bool × Nat × Int) :=
   match parseDec s with
   | none => .err "other"
-  | some (neg, m, e) =>
-    if m = 0 then .ok (false, 0, 0)
-    else
-      let mag : Int := (numDigits m : Int) + e      -- 10^(mag-1) ≤ value < 10^mag
-      if mag > 320 then .err "other"
-      else if mag < -320 then .ok (false, 0, 0)
-      else if decGe m e overflowBound then .err "other"
-      else if decGt m e (10 ^ 300) then .ok (neg, 1, 300)
-      else if !(decGe m (e + 300) 1) then .ok (false, 0, 0)   -- m·10^e < 10^-300
-      else .ok (normReal neg m e)
+  | some v => clampValue v
 
 /-- `decodeFloat`: operand and remaining bytes -/
 def decodeReal (buf : Bytes) : Outcome (Operand × Bytes) :=
